@@ -451,6 +451,8 @@ def c15(tier):
             cases.append(dict(kind="allocfail", seed=rng.randrange(1 << 30), config="default",
                               params=dict(script=r.case["params"]["script"], nth=rng.randrange(max(n, 1)), count=rng.choice([2, 2, 3, 5]))))
     cases += mk("reclaim", 60 if q else 2000, s + 30, "lowheap", mode="lowheap", n_ops=120)
+    # "keeps serving all connections": an allocation of one connection's set-up fails while more connections are pending on the listener
+    cases += mk("acceptburst", 40 if q else 1200, s + 31, "default", alloc=True, rounds=3) + mk("acceptburst", 10 if q else 300, s + 32, "one", alloc=True, rounds=3)
     pres, pcases = passwd_allocfail_cases(tier, s)
     nres, ncases = ns_allocfail_cases(tier, s)
     fres, fcases = fetch_allocfail_cases(tier, s)
